@@ -116,6 +116,18 @@ func init() {
 	reg(vapiPkg+"Min", func(in *Interp, fr *frame, fn *ssa.Function, a []Value, site string) Value {
 		return Min(a[0].(*Term), a[1].(*Term), true)
 	})
+	reg(vapiPkg+"Advance", func(in *Interp, fr *frame, fn *ssa.Function, a []Value, site string) Value {
+		d := concDuration(a[0], "vapi.Advance")
+		in.clock()
+		if d > 0 {
+			in.ensureSched().advance(d)
+		}
+		return nil
+	})
+	reg(vapiPkg+"Elapsed", func(in *Interp, fr *frame, fn *ssa.Function, a []Value, site string) Value {
+		in.clock()
+		return I64(in.now.elapsed)
+	})
 	reg(vapiPkg+"Cover", func(in *Interp, fr *frame, fn *ssa.Function, a []Value, site string) Value {
 		in.e.Cover(in.mustConcStr(a[0], "vapi.Cover label"))
 		return nil
